@@ -5,6 +5,8 @@
 -/
 import GojaModel.C09.Lemmas
 import GojaModel.C09.MechLemmas
+import GojaModel.C09.Link
+import GojaModel.C09.Async
 
 namespace GojaModel.C09
 
@@ -270,5 +272,150 @@ theorem spec_answer_throw_in_return_finally_regression :
                 .ret (.lit (.num 9))]
         [⟨.next, .undef⟩, ⟨.ret, .num 7⟩]).1
       = [.y (.num 1), .d (.num 9)] := by decide
+
+end GojaModel.C09
+
+namespace GojaModel.C09
+
+/-! ## Async functions are the generator state machine driven by promise reactions -/
+open Async in
+/-- goja's `asyncRunner` over the promise job queue — each `await` registering reactions that become FIFO jobs at once
+(awaited promise already settled) or when the host settles the promise later — produces exactly the trace of the
+generator state machine driven by `next(undefined)` followed by one `next(v)` / `throw(e)` per fulfilled / rejected
+awaited promise, cut at completion; for every body, every script of awaited promises, every mix of settle times. -/
+theorem async_is_genRun_on_promises (fuel : Nat) (g : GState) (script : List Async.Awaited) (n : Nat)
+    (hn : 2 * script.length ≤ n) :
+    (drive fuel n (start fuel g script)).trace
+      = cutTrace (genRunFrom fuel g (⟨.next, .undef⟩ :: script.map cmdOf)) := by
+  simp only [start, genRunFrom, cutTrace]
+  rw [arStep_from_idle]
+  generalize genCall fuel g ⟨.next, .undef⟩ = r
+  obtain ⟨ev, res, g'⟩ := r
+  cases res with
+  | y v =>
+    have : ({ awaitSt g' script ([] ++ [(ev, Result.y v)]) with cap := none } : ARun) = awaitSt g' script ([] ++ [(ev, Result.y v)]) := by
+      cases script with
+      | nil => rfl
+      | cons b rs => simp only [awaitSt]; cases b.settle <;> rfl
+    simp only [this]
+    rw [drive_await fuel script g' _ n hn, specRun_eq_cut]; simp
+  | d v => simp [drive_idle]
+  | t v => simp [drive_idle]
+  | fuel => simp [drive_idle]
+
+open Async in
+/-- … and the promise returned by the async function is settled exactly when and how that trace ends: resolved with
+the body's return value, rejected with its uncaught exception, pending while the last result is a suspension. -/
+theorem async_capability_settles_once (fuel : Nat) (g : GState) (script : List Async.Awaited) :
+    (start fuel g script).cap = (match (genCall fuel g ⟨.next, .undef⟩).2.1 with | .y _ => none | r => some r) := by
+  simp only [start]
+  rw [arStep_from_idle]
+  generalize genCall fuel g ⟨.next, .undef⟩ = r
+  obtain ⟨ev, res, g'⟩ := r
+  cases res <;> simp
+
+/-! ## Link between the two models: the mechanism dispatches where the spec's unwinding dispatches -/
+
+/-- On the try-stack layout of ANY spec continuation, placed anywhere, `handleThrow` selects the handler that the
+spec's unwinding (`stepAbrupt`) selects (Link.lean). -/
+theorem mech_throw_dispatch_refines_spec (ex : Nat) (spOf : Nat → Nat) (f : Mech.TryFrame → Mech.TryFrame)
+    (hf : ∀ tf, (f tf).catchPos = tf.catchPos ∧ (f tf).finallyPos = tf.finallyPos) (k : List Frame)
+    (vm : Mech.VM) (lo : List Mech.TryFrame) (h : Nat × Bool)
+    (hvm : vm.tryStack = lo ++ (Link.encode spOf k).map f) (hs : Link.specThrowHandler k = some h) :
+    (Mech.handleThrow ex vm).1 = Link.outcomeOfSpec (some h) :=
+  Link.handleThrow_matches_spec ex spOf f hf k vm lo h hvm hs
+
+/-- The yield/resume cycle preserves that link at every call site. -/
+theorem yield_resume_cycle_preserves_spec_dispatch (ex : Nat) (spOf : Nat → Nat) (k : List Frame) (lo vm2 g : Mech.VM)
+    (hg : Mech.AtYield g) (hk : g.tryStack = Link.encode spOf k) (h : Nat × Bool) (hs : Link.specThrowHandler k = some h) :
+    (Mech.handleThrow ex (Mech.resume vm2 (Mech.suspend (Mech.rebase lo g) lo.tryStack.length lo.iterStack.length lo.refStack.length).1)).1
+        = Link.outcomeOfSpec (some h) ∧
+    (Mech.handleThrow ex (Mech.rebase lo g)).1 = Link.outcomeOfSpec (some h) :=
+  Link.throw_dispatch_after_resume_matches_spec ex spOf k lo vm2 g hg hk h hs
+
+end GojaModel.C09
+
+namespace GojaModel.C09
+
+/-- Return dispatch of the mechanism refines the spec: on the layout of ANY spec continuation, `enterNextFinallyFrame`
+(as repaired by 8004794) enters the finally block that the spec's unwinding of a return completion enters. -/
+theorem mech_return_dispatch_refines_spec (spOf : Nat → Nat) (f : Mech.TryFrame → Mech.TryFrame) (C : Nat)
+    (hf : ∀ tf, (f tf).finallyPos = tf.finallyPos ∧ (f tf).callStackLen = C) (k : List Frame)
+    (vm : Mech.VM) (lo : List Mech.TryFrame) (i : Nat) (hC : vm.callStack.length = C)
+    (hvm : vm.tryStack = lo ++ (Link.encode spOf k).map f) (hs : Link.specReturnHandler k = some i) :
+    (Mech.enterNextFinallyFrame [] vm).1 = true ∧ (Mech.enterNextFinallyFrame [] vm).2.2.cur.pc = 2 * (i : Int) + 1 :=
+  Link.enterNextFinallyFrame_matches_spec spOf f C hf k vm lo [] i hC hvm hs
+
+/-- The content of repair 8004794: the frame whose finally block return(v) enters is dead for `handleThrow`, so an
+exception raised in that block is dispatched to the enclosing handlers exactly as if the frame had been popped. -/
+theorem return_finally_frame_is_dead (ex : Nat) (vm : Mech.VM) (fs : List Mech.TryFrame) (tf : Mech.TryFrame)
+    (h : vm.tryStack = fs ++ [tf]) (hc : tf.callStackLen = vm.callStack.length) (hfin : tf.finallyPos ≥ 0) :
+    (Mech.enterNextFinallyFrame [] vm).1 = true ∧
+    Mech.handleThrow ex (Mech.enterNextFinallyFrame [] vm).2.2
+      = Mech.handleThrow ex { (Mech.enterNextFinallyFrame [] vm).2.2 with tryStack := fs } :=
+  Mech.return_finally_frame_is_dead ex vm fs tf h hc hfin
+
+/-- Regression lemma (old mechanism, before 8004794): with the frame marked `tryPanicMarker`, `handleThrow` reported
+every exception raised in a return-triggered finally as leaving the generator, whatever handlers enclosed it. -/
+theorem old_return_finally_marking_escapes_prefix_witness (ex : Nat) (vm : Mech.VM) (fs : List Mech.TryFrame) (tf : Mech.TryFrame)
+    (h : vm.tryStack = fs ++ [{ tf with catchPos := Mech.tryPanicMarker, finallyPos := -1, finallyRet := -2 }]) :
+    (Mech.handleThrow ex vm).1 = .uncaught :=
+  Mech.old_marking_escapes_prefix_witness ex vm fs tf h
+
+end GojaModel.C09
+
+namespace GojaModel.C09
+
+/-! ## break / continue (optionally labelled) and iterator closing -/
+
+/-- A return, break or continue completion aimed beyond the frames `pre` (no loop in `pre` consumes it) runs every
+pending finally block of `pre` exactly once, innermost first, closing the for-of iterators of `pre` in place, and
+arrives unchanged at the frames below — for ANY continuation prefix whose finally blocks are straight-line logs. -/
+theorem nonthrow_completion_runs_finallies_once (cp : Completion) (hcp : isThr cp = false) (pre rest : List Frame)
+    (env : List Val) (hk : SimpleFins pre) (hp : Passes cp pre) :
+    Reach { ctl := .abrupt cp, env := env, k := pre ++ rest } (finLogs pre) { ctl := .abrupt cp, env := env, k := rest } :=
+  unwind_nonthrow cp hcp pre rest env hk hp
+
+/-- `continue` reaching its for-of loop goes on with the next iteration and does NOT close the iterator. -/
+theorem continue_keeps_iterator_open (l lf : Label) (x : Nat) (it : IterState) (body : List Stmt) (env : List Val)
+    (k : List Frame) (h : loopCatches lf l = true) :
+    step { ctl := .abrupt (.cont l), env := env, k := .forOfK lf x it body :: k }
+      = .cont { ctl := .forOfGo lf x it body, env := env, k := k } [] := by
+  simp [step, stepAbrupt, loopAction, h]
+
+/-- `break` reaching its for-of loop closes the iterator (IteratorClose) and the loop completes normally … -/
+theorem break_closes_iterator (l lf : Label) (x : Nat) (it : IterState) (body : List Stmt) (env : List Val)
+    (k : List Frame) (h : loopCatches lf l = true) (hc : (iterClose it).2 = none) :
+    step { ctl := .abrupt (.brk l), env := env, k := .forOfK lf x it body :: k }
+      = .cont { ctl := .val .undef, env := env, k := k } (iterClose it).1 := by
+  simp only [step, stepAbrupt, loopAction, h]
+  generalize iterClose it = cl at hc
+  obtain ⟨ev, err⟩ := cl
+  simp only at hc; subst hc; simp
+
+/-- … unless the iterator's `return()` throws: then that error replaces every completion leaving the loop except a
+throw, which wins (§7.4.11 IteratorClose steps 5–6). -/
+theorem iterator_return_throw_replaces_nonthrow (cp : Completion) (lf : Label) (x : Nat) (it : IterState) (body : List Stmt)
+    (env : List Val) (k : List Frame) (e : Val) (hc : (iterClose it).2 = some e) (hn : loopAction lf cp ≠ some false) :
+    step { ctl := .abrupt cp, env := env, k := .forOfK lf x it body :: k }
+      = .cont { ctl := .abrupt (if isThr cp then cp else .thr e), env := env, k := k }
+          ((iterClose it).1 ++ (if isThr cp then [] else panicMark)) := by
+  simp only [step, stepAbrupt]
+  generalize iterClose it = cl at hc
+  obtain ⟨ev, err⟩ := cl
+  simp only at hc; subst hc
+  cases hla : loopAction lf cp with
+  | none => cases cp <;> simp_all [isThr]
+  | some b => cases b <;> cases cp <;> simp_all [isThr]
+
+/-! ## Generality of the `rebase` form -/
+
+/-- Every vm whose generator-owned frames record lengths at or above the bases is `rebase lo g` of its lower part and
+its relative generator part — so `handleThrow_site_independent` and the other `rebase` theorems cover every such vm. -/
+theorem every_wellformed_vm_is_rebased (vm : Mech.VM) (T I R S C : Nat)
+    (hS : S ≤ vm.stack.length) (hC : C ≤ vm.callStack.length) (hI : I ≤ vm.iterStack.length) (hR : R ≤ vm.refStack.length)
+    (hf : ∀ tf ∈ vm.tryStack.drop T, C ≤ tf.callStackLen ∧ I ≤ tf.iterLen ∧ R ≤ tf.refLen ∧ S ≤ tf.sp) :
+    Mech.rebase (Mech.lowerOf vm T I R S C) (Mech.genOf vm T I R S C) = vm :=
+  Mech.rebase_decompose vm T I R S C hS hC hI hR hf
 
 end GojaModel.C09
